@@ -12,8 +12,14 @@ fn pipeline_fwd(op: &Op, ctx: &dyn Context, operands: &mut dyn CoordinateSet) ->
             continue;
         }
         // The stack operators are executed here, not by the step itself, so this
-        // is also the place to honour their inv modifier
-        let m = match (step.params.name.as_str(), step.descriptor.inverted) {
+        // is also the place to honour their inv modifier. The built-ins identify
+        // themselves by their "action": a user defined operator which happens to
+        // be named push, pop or stack is applied like any other operator
+        let name = match step.params.text.contains_key("action") {
+            true => step.params.name.as_str(),
+            false => "",
+        };
+        let m = match (name, step.descriptor.inverted) {
             ("push", false) | ("pop", true) => {
                 do_the_push(&mut stack, operands, &step.params.boolean)
             }
@@ -44,7 +50,11 @@ fn pipeline_inv(op: &Op, ctx: &dyn Context, operands: &mut dyn CoordinateSet) ->
             continue;
         }
         // Note: Under inverse invocation "push" calls pop and vice versa
-        let m = match (step.params.name.as_str(), step.descriptor.inverted) {
+        let name = match step.params.text.contains_key("action") {
+            true => step.params.name.as_str(),
+            false => "",
+        };
+        let m = match (name, step.descriptor.inverted) {
             ("push", false) | ("pop", true) => {
                 do_the_pop(&mut stack, operands, &step.params.boolean)
             }
